@@ -43,6 +43,8 @@ func c12Grammars(sw *sweeper, tier string) []*gram.Grammar {
 		}
 	}
 	gs = append(gs, gram.Mk("E: E plus E | E times E | a"))
+	// error in the look-ahead of a reduction, no recoverable state below (the expected-token list names it)
+	gs = append(gs, gram.Mk("S: A B ; A: a ; B: b | error c"))
 	// tokens declared in the lexical part but used by no syntax rule, ignored tokens, a regular definition
 	u := gram.Mk("S: a S b | c")
 	u.Lex = append(u.Lex, gram.LexDef{Name: "unused", Kind: "tok", P: gram.Seq(gram.Lit('u'), gram.Rep(gram.Ref("_d")))},
